@@ -9,7 +9,7 @@ from types import SimpleNamespace
 
 from vp.runner import Result, Deadline, exc_site, time_limit, CaseTimeout
 from vp.gen import docs as gdocs
-from vp.model.plain import canon
+from vp.model.plain import canon, merge_bookkeeping, anchors
 
 ID = "C18"
 LEVEL = "exploration"
@@ -19,6 +19,9 @@ POOL = [
     "- 1\n", "- 2\n- 3\n", "-\n  id: 1\n  v: a\n", "-\n  id: 1\n  w: b\n",
     "# empty\n", "s:\n  - x\nt: !!set\n  ? p\n", "t: !!set\n  ? q\n",
     "- 1\n- 2\n", "- 2\n- 4\n",
+    # dates, anchors and merge keys: what a copy of a document must keep
+    "when: 2001-02-03\nat: 2001-12-14T21:59:43.5Z\n",
+    "m: &B\n  x: 1\nn:\n  <<: *B\n  y: 2\n",
 ]
 MODES = ["condense_all", "merge_across", "matrix_merge"]
 MIXES = [("deep", "all", "all", "unique"), ("deep", "unique", "deep", "unique"),
@@ -118,7 +121,14 @@ def expected(lidx, ridx, mix, mode):
             data, f = fold(lt, rtexts, mix, mode)
             failed = failed or f
             docs.append(data)
-    return [canon(d) for d in docs], failed
+    return [view(d) for d in docs], failed
+
+
+def view(doc):
+    """What is compared per output document: typed data, the names of its
+    anchors and - for hashes using merge keys - which keys are their own."""
+    return [canon(doc), sorted(set(anchors(doc).values())),
+            merge_bookkeeping(doc)]
 
 
 def check_case(lidx, ridx, mix, mode, res, tmpdir):
@@ -149,7 +159,7 @@ def check_case(lidx, ridx, mix, mode, res, tmpdir):
                 raise RuntimeError("left stream failed to load")
             rc = yaml_merge.merge_docs(gdocs.logger(), yaml, cfg, lhs_docs,
                                        rfile)
-            got_docs = [canon(m.data) for m in lhs_docs]
+            got_docs = [view(m.data) for m in lhs_docs]
     except CaseTimeout:
         res.fail({"clause": "terminates", "mode": mode}, case,
                  "no result within 20 s")
